@@ -153,13 +153,11 @@ def roundtrip_impl(impl, case, mode, hist=None, hstats=None):
         from asyncfix.session import FIXSession
         s2 = FIXSession(1, target, sender)
         s2.next_num_out, s2.next_num_in = nxt, 1
-        impl.codec.current_datetime = lambda: now
         try:
-            f2 = impl.codec.encode(impl.last_msg, s2, raw_seq_num=raw)
+            with K.clock(now):
+                f2 = impl.codec.encode(impl.last_msg, s2, raw_seq_num=raw)
         except Exception as e:  # noqa
             f2 = "raised " + K.exc_kind(e)
-        finally:
-            del impl.codec.current_datetime
         if f2 != f:
             return {"signature": "C01-second-encode-differs:" + mode, "what": "encoding the same message object again gives another frame",
                     "input": inp, "expected": C.cp(f), "observed": C.cp(f2)}, "checked"
@@ -196,16 +194,14 @@ def roundtrip_impl(impl, case, mode, hist=None, hstats=None):
         from asyncfix.session import FIXSession
         s2 = FIXSession(1, target, sender)
         s2.next_num_out, s2.next_num_in = nxt, 1
-        impl.codec.current_datetime = lambda: now
         try:
             m2 = impl.codec.decode(frame)[0]
             for t in ("8", "9", "35", "10"):
                 del m2[t]
-            f3 = impl.codec.encode(m2, s2, raw_seq_num=raw)
+            with K.clock(now):
+                f3 = impl.codec.encode(m2, s2, raw_seq_num=raw)
         except Exception as e:  # noqa
             f3 = "raised " + K.exc_kind(e)
-        finally:
-            del impl.codec.current_datetime
         if f3 != f:
             return {"signature": "C01-reencode-of-decoded-differs:" + mode, "what": "encoding the decoded message (framing tags removed) "
                     "does not give the frame it was decoded from", "input": inp, "expected": C.cp(f), "observed": C.cp(f3)[:3000]}, "checked"
